@@ -13,10 +13,11 @@ from common import hx, cps
 
 ID = "C06"
 LEAN_MODEL_TARGETS = ["drv_c06"]
-LEAN_PROOF_TARGETS = ["PyroProps.C06", "PyroProps.C06Ast", "PyroProps.C06EncAst"]
+LEAN_PROOF_TARGETS = ["PyroProps.C06", "PyroProps.C06Ast", "PyroProps.C06EncAst", "PyroProps.C06Src"]
 AUDIT_FILES = ["PyroModel/Bytes.lean", "PyroModel/Wire.lean", "PyroModel/SockIO.lean", "PyroModel/Gen/C06.lean", "PyroProofs/Wire.lean",
                "PyroProofs/WireStages.lean", "PyroProofs/WireReencode.lean", "PyroProps/C17.lean",
-               "PyroProps/C06.lean", "PyroModel/PyIR.lean", "PyroModel/C06AstRun.lean", "PyroProps/C06Ast.lean", "PyroProps/C06EncAst.lean"]
+               "PyroProps/C06.lean", "PyroModel/PyIR.lean", "PyroModel/C06AstRun.lean", "PyroProps/C06Ast.lean", "PyroProps/C06EncAst.lean",
+               "PyroModel/C06Glue.lean", "PyroProps/C06Src.lean"]
 THEOREMS = ["Pyro.C06.C06_roundtrip", "Pyro.C06.C06_sender_limit", "Pyro.C06.C06_receiver_limit",
             "Pyro.C06.C06_accepts_only_wellformed", "Pyro.C06.C06_reencode", "Pyro.C06.C06_fragmentation",
             "Pyro.C06.C06_gen_facts", "Pyro.C06.C06_gen_conditions",
@@ -29,7 +30,15 @@ THEOREMS = ["Pyro.C06.C06_roundtrip", "Pyro.C06.C06_sender_limit", "Pyro.C06.C06
             # SendingMessage.__init__ transcribed from the source on every run = the model's encode, for all messages; the round
             # trip and the sender's size limit stated about the two transcriptions
             "Pyro.C06EncAst.sendInit_translated", "Pyro.C06EncAst.C06_source_send_outcomes", "Pyro.C06EncAst.C06_source_sender_limit",
-            "Pyro.C06EncAst.C06_source_roundtrip"]
+            "Pyro.C06EncAst.C06_source_roundtrip",
+            # recv_stub itself transcribed on every run (shallow: harness/props/c06_tr.py) = the model's recvStub for every stream; with
+            # the three transcribed collaborators: the source's whole decode path, and the property restated about it
+            "Pyro.C06Src.C06_recv_stub_translated", "Pyro.C06Src.C06_source_recv_stub",
+            "Pyro.C06Src.C06_source_decoder_accepts_only_wellformed", "Pyro.C06Src.C06_source_decoder_receiver_limit",
+            "Pyro.C06Src.C06_source_decoder_roundtrip",
+            # stronger statements: acceptance depends on the consumed bytes alone (any continuation), k back-to-back messages
+            "Pyro.C06Src.C06_accept_independent_of_rest", "Pyro.C06Src.C06_source_decoder_independent_of_rest",
+            "Pyro.C06Src.C06_roundtrip_sequence"]
 SUITES = ["encode", "decode"]
 RULE = ("messages generated field by field (boundary values of every 8/16/32-bit field, payload sizes swept across the "
         "100-byte compression threshold, 0-4 annotations incl. zero-length / memoryview / bytearray values, correlation id "
@@ -85,8 +94,16 @@ def extract():
     # annotation values are bytes objects)
     send_init_ast = py2ir.wrap(tr.function("__init__", ["self", "msgtype", "flags", "seq", "serializer_id", "payload", "annotations"],
                                            owner=protocol.SendingMessage, lenient=True))
+    # ... and recv_stub itself, by the shallow translator of this property (harness/props/c06_tr.py): a Lean definition over the
+    # model's own types whose collaborators are parameters
+    from props import c06_tr
+    try:
+        recv_stub_src = c06_tr.recv_stub_lean(protocol)
+    except c06_tr.Untranslatable as x:
+        raise ValueError("recv_stub is outside the fragment of harness/props/c06_tr.py: Untranslatable(%s)" % x)
     return f"""-- GENERATED by harness/props/c06.py from Pyro5/protocol.py — do not edit
 import PyroModel.PyIR
+import PyroModel.C06Glue
 namespace Pyro.Gen.C06
 open Pyro.PyIR in
 /-- `ReceivingMessage.add_payload(self, payload)` as it is written now (harness/py2ir.py, one node per Python AST node) -/
@@ -117,6 +134,7 @@ def lenComparisons : List String := {json.dumps(thr)}
 def acceptedKeyLengths : List Nat := {accepted_lens}
 def compressLevels : List Nat := {levels}
 {conds}
+{recv_stub_src}
 end Pyro.Gen.C06
 """
 
@@ -405,6 +423,71 @@ def mutate(rng, data):
     return bytes(b)
 
 
+# annotation chunk ids that are the ascii encoding of no 4-character string: bytes >= 0x80 arranged as valid UTF-8 sequences of
+# 2 / 3 / 4 bytes (alone, padded with ascii on either side, several in a row), as invalid UTF-8 (lone continuation bytes, truncated
+# lead bytes, overlong forms, surrogates, 0xfe / 0xff), as latin-1 / cp1252 text; and ids that ARE ascii but unusual (NUL, DEL, blanks)
+NONASCII_IDS = [
+    b"\xc3\xa9ab", b"a\xc3\xa9b", b"ab\xc3\xa9", b"\xc3\xa9\xc3\xa9", b"\xc2\x80\xdf\xbf", b"\xc2\xa0AB",
+    b"\xe2\x82\xacA", b"A\xe2\x82\xac", b"\xe0\xa0\x80Z", b"\xef\xbf\xbfZ", b"\xef\xbb\xbfA",
+    b"\xf0\x9f\x98\x80", b"\xf0\x90\x80\x80", b"\xf4\x8f\xbf\xbf",
+    b"\x80ABC", b"ABC\x80", b"AB\xc3C", b"ABC\xc3", b"\xc0\x80AB", b"\xc1\xbfAB", b"\xe0\x80\x80A", b"\xed\xa0\x80A", b"\xed\xbf\xbfA",
+    b"\xf4\x90\x80\x80", b"\xf5\x80\x80\x80", b"\xf8\x88\x80\x80", b"\xff\xfeAB", b"\xfe\xffAB", b"\xff\xff\xff\xff", b"\x80\x80\x80\x80",
+    b"\xe9ABC", b"caf\xe9", b"\x93AB\x94", b"\xa4\xa4\xa4\xa4",
+]
+ODD_ASCII_IDS = [b"\0\0\0\0", b"A\0BC", b"\x7f\x7f\x7f\x7f", b"    ", b"\r\n\t ", b"ABC\x7f", b"\x1b[0m"]
+
+
+def _chunk_offsets(b):
+    """offsets (in the whole message) of the annotation chunks of a well-formed message; [] if the area is not tiled"""
+    if len(b) < 40:
+        return []
+    asz = int.from_bytes(b[16:20], "big")
+    offs, i = [], 0
+    while i < asz:
+        if 40 + i + 8 > len(b):
+            return []
+        offs.append(40 + i)
+        i += 8 + int.from_bytes(b[40 + i + 4:40 + i + 8], "big")
+    return offs if i == asz else []
+
+
+def mutate_ids(rng, data):
+    """structure-aware mutation of the annotation chunk IDS of an encoded message (everything else stays well formed, so the
+    decoder's verdict depends on the id bytes alone); a message without annotations gets a chunk first"""
+    b = bytearray(data)
+    if len(b) < 40:
+        return bytes(b)
+    offs = _chunk_offsets(b)
+    if not offs or rng.random() < 0.15:
+        # insert a chunk (in front, in the middle or at the end of the annotation area), header adjusted
+        asz = int.from_bytes(b[16:20], "big")
+        if asz + 80 >= 2 ** 32:
+            return bytes(b)
+        v = rng.randbytes(rng.choice([0, 0, 1, 5]))
+        at = rng.choice(offs + [40 + asz]) if offs else 40
+        chunk = b"QQQQ" + len(v).to_bytes(4, "big") + v
+        b[at:at] = chunk
+        b[16:20] = (asz + len(chunk)).to_bytes(4, "big")
+        offs = _chunk_offsets(b)
+    r = rng.random()
+    for off in (offs if rng.random() < 0.15 else [rng.choice(offs)]):
+        if r < 0.6:
+            new = rng.choice(NONASCII_IDS)
+        elif r < 0.7:
+            new = rng.choice(ODD_ASCII_IDS)
+        elif r < 0.85:
+            # one or two bytes of the id get their high bit set / become a random byte >= 0x80
+            new = bytearray(b[off:off + 4])
+            for _ in range(rng.choice([1, 1, 2])):
+                j = rng.randrange(4)
+                new[j] = (new[j] | 0x80) if rng.random() < 0.5 else rng.randrange(0x80, 0x100)
+            new = bytes(new)
+        else:
+            new = rng.randbytes(4)
+        b[off:off + 4] = new
+    return bytes(b)
+
+
 def _corpus():
     d = os.path.join(common.VERIF, "corpus", "C06")
     out = []
@@ -481,10 +564,13 @@ def _decode_suite(ctx, name, n, do_model):
             r = rng.random()
             if r < 0.25:
                 pass
-            elif r < 0.85:
+            elif r < 0.72:
                 stream = mutate(rng, stream)
                 if rng.random() < 0.2:
                     stream = mutate(rng, stream)
+            elif r < 0.85:
+                stream = mutate_ids(rng, stream)
+                ctx.count("dec-gen:ids")
             else:
                 # duplicate annotation key: append a second chunk with an existing key (later one wins)
                 if m["anns"]:
@@ -593,6 +679,21 @@ def _check_accepted(ctx, stream, rmsg, conn, case):
     b = (rmsg2.type, rmsg2.serializer_id, rmsg2.flags | 64, rmsg2.seq, bytes(rmsg2.data), {k: bytes(v) for k, v in rmsg2.annotations.items()}, bytes(rmsg2.corr_id))
     if a != b:
         ctx.fail("accept-reencode", "re-encoding an accepted message gives a different message", case)
+        return
+    # ... and where the sender has no freedom it re-encodes to EXACTLY the bytes that were consumed: the accepted bytes are the
+    # encoding of the decoded message (oracle clause only; the theorems state acceptance => tiling (C06_accepts_only_wellformed)
+    # and re-encodability up to equivalence (C06_reencode)).  The sender's freedom: the reserved field (always written 0),
+    # the correlation id bytes when the CORR_ID flag is clear (always written 0), the compressor's output, a repeated annotation key
+    # (a dict has it once).
+    hflags = int.from_bytes(hdr[8:10], "big")
+    nchunks = len(_chunk_offsets(stream[:used]))
+    if hdr[36:38] == b"\0\0" and not (hflags & 2) and nchunks == len(chunks) == len(rmsg.annotations) \
+            and ((hflags & 64) or hdr[20:36] == b"\0" * 16):
+        m3 = dict(m2, corr=bytes(rmsg.corr_id) if (hflags & 64) else None)
+        out3, smsg3 = real_encode(m3, 10 ** 10)
+        if smsg3 is None or bytes(smsg3.data) != bytes(stream[:used]):
+            ctx.fail("accept-not-an-encoding", "the decoder accepted %d bytes that are the encoding of no message: the decoded message "
+                     "re-encodes to %s" % (used, out3[:120]), case)
 
 
 def _fragmentation(ctx, name, n):
@@ -640,6 +741,72 @@ def _fragmentation(ctx, name, n):
         socketutil.time = realtime
 
 
+def _sequence(ctx, name, n):
+    """back-to-back messages on ONE connection (C06Src.C06_roundtrip_sequence): recv_stub called k times reads the k messages in
+    order, each time exactly its own bytes, and leaves what follows the last one; over the exact-n byte source and over the real
+    SocketConnection on a fragmenting scripted socket"""
+    from Pyro5 import protocol, socketutil, errors, config
+    rng = ctx.sub_rng(name)
+    realtime = socketutil.time
+    socketutil.time = fakes.NoSleep(realtime)
+    old_max, old_waitall = config.MAX_MESSAGE_SIZE, socketutil.USE_MSG_WAITALL
+    try:
+        for i in range(n):
+            k = rng.choice([2, 2, 3, 4])
+            msgs, datas = [], []
+            while len(msgs) < k:
+                m = gen_msg(rng)
+                m["type"] %= 256; m["ser"] %= 256; m["flags"] %= 65536; m["seq"] %= 65536
+                m["anns"] = [a for a in m["anns"] if len(a[0]) == 4 and a[0].isascii()]
+                real, msg = real_encode(m, 10 ** 9)
+                if msg is not None:
+                    msgs.append(m)
+                    datas.append(bytes(msg.data))
+            rest = rng.randbytes(rng.choice([0, 0, 3, 40]))
+            stream = b"".join(datas) + rest
+            over_socket = rng.random() < 0.5
+            if over_socket:
+                script = []
+                for _ in range(len(stream) + 8):
+                    script.append(("d", rng.choice([1, 2, 3, 7, 34, 40, 41, 100, 10 ** 6])) if rng.random() < 0.85
+                                  else ("r", rng.choice(list(socketutil.ERRNO_RETRIES))))
+                script += [("d", 10 ** 6)] * (len(stream) + 8)
+                sock = fakes.ScriptedSocket(stream, script)
+                socketutil.USE_MSG_WAITALL = rng.random() < 0.5
+                conn = socketutil.SocketConnection(sock, keep_open=True)
+                consumed = lambda: sock.pos
+            else:
+                script = None
+                conn = FakeConn(stream, errors)
+                consumed = lambda: conn.pos
+            config.MAX_MESSAGE_SIZE = 10 ** 9
+            case = {"msgs": [common.jsonable(m) for m in msgs], "rest": rest.hex(), "over_socket": over_socket,
+                    "script": script[:len(stream) + 8] if script else None}
+            ctx.evaluations += 1
+            upto = 0
+            try:
+                for j, (m, data) in enumerate(zip(msgs, datas)):
+                    rmsg = protocol.recv_stub(conn, None)
+                    upto += len(data)
+                    got = (rmsg.type, rmsg.serializer_id, rmsg.seq, bytes(rmsg.data), [(k2, bytes(v)) for k2, v in rmsg.annotations.items()])
+                    exp = (m["type"], m["ser"], m["seq"], m["payload"], [(k2, v) for k2, v, _ in m["anns"]])
+                    if got != exp:
+                        ctx.fail("sequence", "message %d of %d back-to-back messages is decoded as a different message" % (j + 1, len(msgs)), case)
+                        break
+                    if consumed() != upto:
+                        ctx.fail("sequence", "after message %d of %d back-to-back messages %d bytes are consumed, the messages so far have %d"
+                                 % (j + 1, len(msgs), consumed(), upto), case)
+                        break
+                else:
+                    ctx.count("seq:ok")
+                    ctx.nontriv(("seq", i, len(stream)))
+            except Exception as x:
+                ctx.fail("sequence", "decoding %d back-to-back valid messages failed: %r" % (len(msgs), x), case)
+    finally:
+        socketutil.time = realtime
+        config.MAX_MESSAGE_SIZE, socketutil.USE_MSG_WAITALL = old_max, old_waitall
+
+
 def _memoryview_itemsize(ctx):
     """excluded point of the model's byte-buffer domain, run on the real code: memoryview annotation with itemsize > 1"""
     import array
@@ -672,11 +839,13 @@ def oracle(ctx):
     common.repo_on_path()
     if not ctx.search_mode:
         _fragmentation(ctx, "frag", ctx.n(300, 5000))
+        _sequence(ctx, "seq", ctx.n(300, 5000))
         _memoryview_itemsize(ctx)
     else:
         _encode_suite(ctx, "enc-search", ctx.n(6000, 100000), False)
         _decode_suite(ctx, "dec-search", ctx.n(8000, 100000), False)
         _fragmentation(ctx, "frag-search", ctx.n(300, 3000))
+        _sequence(ctx, "seq-search", ctx.n(300, 3000))
 
 
 def replay(ctx, case):
